@@ -291,7 +291,7 @@ func checkK4(c *Ctx, jr *joinRoles) {
 								return true
 							case "append":
 								if u.Call.Args[0] == v {
-									return isStoredToField(u, "join")
+									return storedToField(p, u, "join", 0)
 								}
 								// copied out: append(nil / empty fresh slice, B...)
 								if len(u.Call.Args) == 2 && u.Call.Args[1] == v {
@@ -310,7 +310,7 @@ func checkK4(c *Ctx, jr *joinRoles) {
 							return true
 						}
 					case *ssa.Slice:
-						return isStoredToField(u, "join")
+						return storedToField(p, u, "join", 0)
 					case *ssa.Send:
 						return p.chanRole(u.Chan) == "field:output"
 					case *ssa.Select:
@@ -334,8 +334,15 @@ func checkK4(c *Ctx, jr *joinRoles) {
 }
 
 func isStoredToField(v ssa.Value, field string) bool {
+	return storedToField(nil, v, field, 0)
+}
+
+// storedToField: every use of v is a store into the named field - directly, or (p != nil) by
+// being the result of a private helper whose every call result is stored there
+// (dsc.join = dsc.join.emptied()).
+func storedToField(p *Prog, v ssa.Value, field string, depth int) bool {
 	refs := v.Referrers()
-	if refs == nil {
+	if refs == nil || depth > 3 {
 		return false
 	}
 	n := 0
@@ -344,9 +351,28 @@ func isStoredToField(v ssa.Value, field string) bool {
 			continue
 		}
 		n++
-		if _, ok := fieldStore(r, field); !ok {
-			return false
+		if _, ok := fieldStore(r, field); ok {
+			continue
 		}
+		if ct, ok := r.(*ssa.ChangeType); ok && storedToField(p, ct, field, depth+1) {
+			continue
+		}
+		if ret, ok := r.(*ssa.Return); ok && p != nil && len(ret.Results) == 1 {
+			fn := ret.Parent()
+			obj, _ := fn.Object().(*types.Func)
+			sites := p.CallSites(p.Norm(fn))
+			okAll := obj != nil && !obj.Exported() && len(sites) > 0
+			for _, cs := range sites {
+				cv, isVal := cs.(*ssa.Call)
+				if !isVal || !storedToField(p, cv, field, depth+1) {
+					okAll = false
+				}
+			}
+			if okAll {
+				continue
+			}
+		}
+		return false
 	}
 	return n > 0
 }
@@ -407,7 +433,27 @@ func checkM2(c *Ctx, jr *joinRoles) {
 		}
 		// the zero successor must call a loop function without ticker clause, and not the timed one
 		untimedCalled, timedCalled := false, false
+		// (the loop function may be picked as a method value first: run := dsc.loop; if interval == 0
+		// { run = dsc.loopUntimeouted }; run() - the edge taken into the phi's block selects it)
+		phiEdge := map[*ssa.Phi]int{}
+		var walkFrom func(from, x *ssa.BasicBlock, seen map[*ssa.BasicBlock]bool)
 		var walk func(x *ssa.BasicBlock, seen map[*ssa.BasicBlock]bool)
+		walkFrom = func(from, x *ssa.BasicBlock, seen map[*ssa.BasicBlock]bool) {
+			if !seen[x] {
+				for _, in := range x.Instrs {
+					ph, isPhi := in.(*ssa.Phi)
+					if !isPhi {
+						break
+					}
+					for k, pb := range x.Preds {
+						if pb == from {
+							phiEdge[ph] = k
+						}
+					}
+				}
+			}
+			walk(x, seen)
+		}
 		walk = func(x *ssa.BasicBlock, seen map[*ssa.BasicBlock]bool) {
 			if seen[x] {
 				return
@@ -415,7 +461,15 @@ func checkM2(c *Ctx, jr *joinRoles) {
 			seen[x] = true
 			for _, in := range x.Instrs {
 				if call, isCall := in.(*ssa.Call); isCall {
+					var cals []*ssa.Function
 					if cal := p.Callee(call); cal != nil {
+						cals = append(cals, cal)
+					} else {
+						for _, t := range p.funcValueTargetsChoice(nil, call, func(ph *ssa.Phi) (int, bool) { k, okk := phiEdge[ph]; return k, okk }) {
+							cals = append(cals, t.Fn)
+						}
+					}
+					for _, cal := range cals {
 						for _, l := range jr.loops {
 							if l == cal {
 								timed := false
@@ -437,10 +491,10 @@ func checkM2(c *Ctx, jr *joinRoles) {
 				}
 			}
 			for _, s := range x.Succs {
-				walk(s, seen)
+				walkFrom(x, s, seen)
 			}
 		}
-		walk(b.Succs[zeroSucc], map[*ssa.BasicBlock]bool{b: true})
+		walkFrom(b, b.Succs[zeroSucc], map[*ssa.BasicBlock]bool{b: true})
 		if untimedCalled && !timedCalled {
 			ok = true
 		} else {
@@ -514,16 +568,16 @@ func checkT5(c *Ctx, jr *joinRoles) {
 				if call, ok := in.(*ssa.Call); ok {
 					if cal := p.Callee(call); cal != nil && p.funcDisplay(cal) == "(*time.Ticker).Stop" {
 						// (a Stop inside a closure or helper that itself only ever runs as a deferred call is a deferred Stop)
-				deferredHelper := false
-				if sites := p.CallSites(fn); len(sites) > 0 && !blockInLoop(call.Block()) {
-					deferredHelper = true
-					for _, cs := range sites {
-						if _, isD := cs.(*ssa.Defer); !isD || blockInLoop(cs.Block()) {
-							deferredHelper = false
+						deferredHelper := false
+						if sites := p.CallSites(fn); len(sites) > 0 && !blockInLoop(call.Block()) {
+							deferredHelper = true
+							for _, cs := range sites {
+								if _, isD := cs.(*ssa.Defer); !isD || blockInLoop(cs.Block()) {
+									deferredHelper = false
+								}
+							}
 						}
-					}
-				}
-				if _, isDefer := in.(*ssa.Defer); !isDefer && !deferredHelper && (blockInLoop(call.Block()) || !isLoopFn(jr, fn)) {
+						if _, isDefer := in.(*ssa.Defer); !isDefer && !deferredHelper && (blockInLoop(call.Block()) || !isLoopFn(jr, fn)) {
 							c.R.Fail("T5", joinKey(jr, fn, "ticker-stop"), p.InstrPos(call), "the ticker is stopped while the discipline runs (not by a defer / after the receive loop): until something re-arms it the timeout is not examined and accumulated elements wait without bound")
 						}
 					}
